@@ -81,7 +81,7 @@ def cases(tier, seed):
 def required(tier):
     req = ['exhaustive/g1/depth%d' % d for d in range(0, depth(tier) + 1)] + ['exhaustive/g2/depth%d' % d for d in range(0, depth(tier) + 1)]
     req += ['exhaustive-reduced/g1/depth4', 'exhaustive-reduced/g2/depth4'] if tier == 'thorough' else ['sample/depth3']
-    req += ['random/program', 'obs/denotes', 'obs/eq-fresh', 'obs/is_zero', 'obs/encoding', 'obs/pairing', 'obs/identity-register',
+    req += ['random/program', 'obs/denotes', 'obs/eq-fresh', 'obs/eq-other', 'obs/is_zero', 'obs/encoding', 'obs/pairing', 'obs/identity-register',
             'obs/non-normalised-register']
     return req
 
@@ -162,6 +162,9 @@ def observe(ctx, which, prog_ins, label, pair_sample):
         obs.append((pr.emit('_', g + '.eq', '$' + x, '$f'), 'eq-fresh', x, 'bool true'))
         obs.append((pr.emit('_', g + '.eq', '$f', '$' + x), 'eq-fresh', x, 'bool true'))
         obs.append((pr.emit('_', g + '.is_zero', '$' + x), 'is_zero', x, 'bool ' + str(d == 0).lower()))
+        for dd in ((-d) % r, (d + 1) % r):
+            pr.emit('n', g + '.mul', pr.let(g + '.one')[0], h32(dd))
+            obs.append((pr.emit('_', g + '.eq', '$' + x, '$n'), 'eq-other', x, 'bool ' + str(dd == d).lower()))
         if P is not None:
             from .c10 import encode
             for f in FMT:
